@@ -11,7 +11,7 @@ from attrs import field
 
 from rattr import error
 from rattr.ast.types import Identifier
-from rattr.ast.util import unravel_names
+from rattr.ast.util import fullname_of, unravel_names
 from rattr.config.state import enter_file
 from rattr.config.util import get_current_file
 from rattr.models.context._symbol_table import SymbolTable
@@ -305,7 +305,9 @@ class Context(MutableMapping[Identifier, Symbol]):
         self.add(Name(name, token=assignment) for name in unravel_names(assignment))
 
     def remove_identifiers_from_context(self, assignment: ast.expr) -> None:
-        self.remove(unravel_names(assignment))
+        # NOTE `del a.b` and `del a[0]` delete a part of `a`, `a` itself stays defined
+        names = unravel_names(assignment, _get_name=fullname_of)
+        self.remove(name for name in names if name.isidentifier())
 
     def add_arguments_to_context(
         self,
